@@ -272,6 +272,10 @@ class Engine(object):
             return r if isinstance(r, bool) else mk_bool(r)
         self.prims["feq"] = GhostPrim("feq", feq)
 
+        def trace_events(ex):
+            return PList(list(ex.ctx.__dict__.get("trace", [])))
+        self.prims["trace_events"] = GhostPrim("trace_events", trace_events)
+
         def isstr(ex, v):
             return is_strlike(v)
         self.prims["is_str"] = GhostPrim("is_str", isstr)
@@ -405,6 +409,14 @@ class Engine(object):
             return self.fresh_slist(ex, t[5:-1], name)
         if t == "emptydict":
             return PDict({})
+        if t == "any":
+            return SInt(ctx.fresh(name + ".opaque"))
+        if t.startswith("dict[") and t.endswith("]"):
+            d = {}
+            for part in split_top(t[5:-1]):
+                k, _, vt = part.partition(":")
+                d[k.strip()] = self.fresh_of_type(ex, vt.strip(), "%s[%s]" % (name, k.strip()), env)
+            return PDict(d)
         if t == "file":
             data = ctx.fresh_str(name + ".data", is_bytes=True)
             pos = ctx.fresh(name + ".pos")
@@ -639,6 +651,14 @@ class Engine(object):
     def apply_contract(self, ex, fref, contract, env, line):
         ctx = ex.ctx
         fq, contract = self.select_variant(fref.fq, contract, env)
+        if contract.get("trace"):
+            # an abstract hook: its only modelled effect is one record on the ghost event trace
+            names = [p.arg for p in fref.node.args.args]
+            rec = (contract["trace"],) + tuple(env[n] for n in names if n != "self" or contract.get("trace_self"))
+            ctx.__dict__.setdefault("trace", []).append(rec)
+            ctx.used_contracts.add(fq)
+            ctx.tags.add("ghost trace: %s modelled as appending one record" % fq.split("mingus.")[-1])
+            return None
         ctx.used_contracts.add(fq)
         env = dict(env)
         self.coerce_params(ex, contract, env, fq, line)
@@ -783,6 +803,8 @@ class Engine(object):
             if a == "intset" and isinstance(v, (SIntSet, tuple, PList, PSet)):
                 return True
             if a == "emptydict" and isinstance(v, PDict) and not v.d:
+                return True
+            if a.startswith("dict[") and isinstance(v, PDict):
                 return True
             if a == "file" and isinstance(v, FileObj):
                 return True
